@@ -27,7 +27,7 @@ ASSUMPTIONS = ["env.X is by definition the published transformed table; tables w
                "(3 + 2*window days) are not 'daily or finer' and are not generated",
                "a configuration with too little data may be refused at construction (counted as config-rejected)"]
 REQUIRED = ["C18:kept-observation-unchanged", "C18:observation", "C18:bounds", "C18:step-date", "C18:quotes", "C18:rate", "C18:full-window", "C18:published-table"]
-REQUIRED_CATS = ["decision-refused-then-resubmitted", "latency-with-intraday-feature-rows", "earlier-fold-after-later-fold", "last-date-is-a-holiday", "fold-after-holiday-cluster", "rate-off-price-dates", "window>1", "stride", "late-fold", "calendar:LSE", "calendar:NYSE", "transformer:None", "transformer:z-score",
+REQUIRED_CATS = ["index-unit-not-microseconds", "decision-refused-then-resubmitted", "latency-with-intraday-feature-rows", "earlier-fold-after-later-fold", "last-date-is-a-holiday", "fold-after-holiday-cluster", "rate-off-price-dates", "window>1", "stride", "late-fold", "calendar:LSE", "calendar:NYSE", "transformer:None", "transformer:z-score",
                  "transformer:yeo-johnson"]
 TECHNIQUE = "runtime monitoring: observations, quotes and step dates of real episodes compared at every call with the tables the environment was given"
 LEVEL_TEXT = ("Exploration over generated table shapes and options; at every call of every episode the observation, the traded quotes, "
@@ -139,6 +139,16 @@ def case(ctx, i, tier):
                   "start": kw.get("start"), "end": kw.get("end"), "late_fold": folds is not None, "rate": rate is not None,
                   "nans": nnan}
     ctx.cat("calendar:" + cal, "transformer:" + str(tf))
+    if r.random() < 0.3:
+        # the caller's tables carry a DatetimeIndex of another resolution (nanoseconds from older files, seconds or
+        # milliseconds from numpy arrays), possibly a different one per table: the same dates all the same
+        uy = r.choice(["ns", "s", "ms"])
+        Y.index = Y.index.as_unit(uy)
+        if r.random() < 0.5:
+            X.index = X.index.as_unit(r.choice(["ns", "s", "ms", "us"]))
+        if rate is not None and r.random() < 0.5:
+            rate.index = rate.index.as_unit(r.choice(["ns", "s", "us"]))
+        ctx.cat("index-unit-not-microseconds")
     Xin, Yin = X.copy(), Y.copy()
     try:
         env = TradingEnvXY(X, Y, window=window, stride=stride, spread=SP, transformer=tf, clip=clip, calendar=cal, folds=folds,
